@@ -467,3 +467,134 @@ Proof.
   split. { intros v d Hv Hd. unfold pending. rewrite N4. apply Hpend1; assumption. }
   split; [congruence | unfold now; congruence].
 Qed.
+
+(** the same, with the pre-dispatch world given *)
+Theorem update_global_index_effect' w sender h r dp g tb ts w1 :
+  Wired w -> RewardWired w -> RewardsToDispatcher w -> IndexWiring w -> StubsOk (w_env w) ->
+  IndexE1 w -> RewardSolvent w -> HubReady w sender ->
+  w_hub w = Some h -> w_reward w = Some r -> w_disp w = Some dp -> w_reg w = Some g ->
+  w_bsei w = Some tb -> w_stsei w = Some ts ->
+  pre_dispatch w sender = Some w1 ->
+  let e := w_env w in
+  let e1 := w_env w1 in
+  let X_b := bal e1 A_disp (dp_bd dp) in
+  let X_st := bal e1 A_disp usei in
+  let rb := X_st - X_st * dp_rate dp / D in
+  X_b <= LIM -> X_st <= LIM -> ~ Known_F2 (dp_rate dp) X_b X_st ->
+  exists w' tr,
+    run tx_fuel w [(sender, root_msg)] [] = Some (w', tr) /\
+    let e' := w_env w' in
+    bal e' A_disp (dp_bd dp) = 0 /\ bal e' A_disp usei = 0 /\
+    (forall d, bal e' A_hub d = bal e A_hub d) /\
+    w_bsei w' = Some tb /\ w_stsei w' = Some ts /\
+    delegated e' A_hub = delegated e A_hub + rb /\
+    (exists h', w_hub w' = Some h' /\ h_batch h' = h_batch h /\ h_wait h' = h_wait h /\ h_hist h' = h_hist h /\
+       (rb = 0 -> hs_bb (h_state h') = hs_bb (h_state h) /\ hs_bst (h_state h') = hs_bst (h_state h)) /\
+       (rb <> 0 -> exists s1, query_actual_state w A_hub h = Some s1 /\
+                   hs_bb (h_state h') = hs_bb s1 /\ hs_bst (h_state h') = hs_bst s1 + rb /\
+                   hs_ber (h_state h') = hs_ber s1 /\
+                   hs_ser (h_state h') = rate_of (hs_bst s1 + rb) (claims_st h ts))).
+Proof.
+  intros HW HRW HRD HIW HST HE1 HSol HRdy Hwh Hwr Hwd Hwg Hwb Hws Hpre e e1 X_b X_st rb HXb HXst HF2.
+  destruct (update_global_index_effect w sender h r dp g tb ts HW HRW HRD HIW HST HE1 HSol HRdy Hwh Hwr Hwd Hwg Hwb Hws)
+    as (w1' & Hpre' & Hrest).
+  rewrite Hpre in Hpre'. inversion Hpre'; subst w1'. clear Hpre'. cbn zeta in Hrest.
+  destruct Hrest as (_ & _ & _ & _ & _ & _ & _ & _ & _ & _ & _ & Hmain).
+  destruct (Hmain HXb HXst HF2) as (w' & tr & Hrun & P1 & P2 & P3 & P4 & P5 & Phub & B1 & B2 & B3 & B4 & B5 & B6 & B7 & D1 & _).
+  exists w', tr. split; [exact Hrun|]. cbn zeta.
+  split; [exact B1|]. split; [exact B2|]. split; [exact B3|]. split; [exact P1|]. split; [exact P2|].
+  split; [exact D1|].
+  destruct Phub as (h' & Hh' & _ & _ & G3 & G4 & G5 & _ & _ & G8 & G9).
+  exists h'. split; [exact Hh'|]. split; [exact G3|]. split; [exact G4|]. split; [exact G5|]. split.
+  - intros E. rewrite (G8 E). split; reflexivity.
+  - intros E. destruct (G9 E) as (s1 & Hq & Hst). exists s1. split; [exact Hq|]. rewrite Hst. repeat split.
+Qed.
+
+(** ** C19.2 — the withdrawals, stated on the distribution module alone *)
+Theorem withdraw_all_effect e x :
+  let vs := del_vals e x in
+  let e' := withdraw_all x vs e in
+  foldM (fun e v => do_withdraw_reward e x v) vs e = Some e' /\
+  (forall v d, In v vs -> In d DENOMS -> pending e' x v d = 0) /\
+  (forall a d, bal e' a d =
+     bal e a d + (if (a =? withdraw_addr e x) && in_denoms d then pend_total e x vs d else 0)) /\
+  (forall y v d, (y <> x \/ ~ In v vs \/ ~ In d DENOMS) -> pending e' y v d = pending e y v d) /\
+  e_del e' = e_del e /\ e_unb e' = e_unb e /\ e_now e' = e_now e /\ e_wdaddr e' = e_wdaddr e.
+Proof.
+  intros vs e'. split; [|split; [|split; [|split]]].
+  - apply withdraw_all_foldM. intros v Hv. apply In_del_vals in Hv. tauto.
+  - intros v d Hv Hd. unfold e'. rewrite withdraw_all_pending, N.eqb_refl. cbn [andb].
+    assert (E1 : existsb (N.eqb v) vs = true) by (apply existsb_exists; exists v; split; [exact Hv | apply N.eqb_refl]).
+    apply in_denoms_In in Hd. rewrite E1, Hd. reflexivity.
+  - intros a d. apply withdraw_all_bal. apply del_vals_NoDup.
+  - intros y v d Hc. unfold e'. rewrite withdraw_all_pending.
+    destruct ((y =? x) && (existsb (N.eqb v) vs && in_denoms d)) eqn:E; [|reflexivity]. exfalso.
+    rewrite !andb_true_iff in E. destruct E as [E1 [E2 E3]]. apply N.eqb_eq in E1.
+    apply existsb_exists in E2. destruct E2 as [u [Hu Eu]]. apply N.eqb_eq in Eu. subst u.
+    apply in_denoms_In in E3. tauto.
+  - pose proof (withdraw_all_frame x vs e) as F. cbn zeta in F. fold e' in F. tauto.
+Qed.
+
+(** ** C19.3 — bank level: executing the bank part of a message list from [self] debits exactly what
+    the messages carry; hence after the messages of DispatchRewards the dispatcher holds nothing *)
+Definition bank_part (self : addr) (e : env) (m : cmsg) : result env :=
+  match m with
+  | MBank to cs => bank_send e self to cs
+  | MWasm to _ fs => send_coins e self to fs
+  | _ => Some e
+  end.
+
+Definition msg_dest (m : cmsg) : option addr :=
+  match m with MBank to _ => Some to | MWasm to _ _ => Some to | _ => None end.
+
+Lemma send_coins_debits self to : self <> to -> forall (cs : list coin) e e',
+  send_coins e self to cs = Some e' ->
+  forall d, bal e' self d + sumN (map (fun c => if fst c =? d then snd c else 0) cs) = bal e self d.
+Proof.
+  intros Hne. induction cs as [|c cs IH]; intros e e' H d.
+  - cbn in H. inversion H; subst. cbn. lia.
+  - unfold send_coins in H. cbn [foldM] in H. bind_inv H as e1 He1. destruct c as [dc x].
+    apply send_coin_inv in He1. destruct He1 as (_ & Hle & ->).
+    specialize (IH _ _ H d). cbn [map sumN fst snd]. rewrite <- IH.
+    rewrite bal_xfer by exact Hne. rewrite N.eqb_refl.
+    destruct (d =? dc) eqn:E.
+    + apply N.eqb_eq in E. subst dc. rewrite N.eqb_refl. lia.
+    + assert (E' : (dc =? d) = false) by lia. rewrite E'. lia.
+Qed.
+
+Lemma bank_part_debits self : forall msgs e e',
+  (forall m, In m msgs -> msg_dest m <> Some self) ->
+  foldM (bank_part self) msgs e = Some e' ->
+  forall d, bal e' self d + sumN (map (sent_of d) msgs) = bal e self d.
+Proof.
+  induction msgs as [|m msgs IH]; intros e e' Hd H d.
+  - cbn in H. inversion H; subst. cbn. lia.
+  - cbn [foldM] in H. bind_inv H as e1 He1.
+    specialize (IH e1 e' (fun m0 Hm0 => Hd m0 (or_intror Hm0)) H d). cbn [map sumN]. rewrite <- IH.
+    specialize (Hd m (or_introl eq_refl)).
+    destruct m; cbn [bank_part sent_of msg_dest] in *; try (inversion He1; subst; lia).
+    + pose proof (send_coins_debits self to ltac:(congruence) funds e e1 He1 d). lia.
+    + unfold bank_send in He1. destruct coins as [|c cs]; [discriminate|].
+      pose proof (send_coins_debits self to ltac:(congruence) (c :: cs) e e1 He1 d). lia.
+Qed.
+
+Theorem dispatch_bank_exact dp self e e' :
+  dp_rate dp <= D -> dp_bd dp <> dp_std dp ->
+  dp_keeper dp <> self -> dp_reward dp <> self -> dp_hub dp <> self ->
+  foldM (bank_part self) (dispatch_msgs dp (bal e self (dp_bd dp)) (bal e self (dp_std dp))) e = Some e' ->
+  bal e' self (dp_bd dp) = 0 /\ bal e' self (dp_std dp) = 0.
+Proof.
+  intros Hr Hne Hk Hrw Hh H.
+  destruct (dispatch_conserves dp (bal e self (dp_bd dp)) (bal e self (dp_std dp)) Hr Hne) as [C1 C2].
+  assert (Hd : forall m, In m (dispatch_msgs dp (bal e self (dp_bd dp)) (bal e self (dp_std dp))) ->
+               msg_dest m <> Some self).
+  { intros m Hm. unfold dispatch_msgs in Hm. cbn zeta in Hm.
+    repeat (apply in_app_or in Hm; destruct Hm as [Hm|Hm]).
+    - destruct (_ =? 0); [contradiction|]. destruct Hm as [<-|[<-|[]]]; cbn; congruence.
+    - destruct (_ =? 0); [contradiction|]. destruct Hm as [<-|Hm]; [cbn; congruence|].
+      destruct (_ =? 0); [contradiction|]. destruct Hm as [<-|[]]. cbn. congruence.
+    - destruct Hm as [<-|[]]. cbn. congruence. }
+  pose proof (bank_part_debits self _ e e' Hd H (dp_bd dp)) as B1.
+  pose proof (bank_part_debits self _ e e' Hd H (dp_std dp)) as B2.
+  rewrite C1 in B1. rewrite C2 in B2. split; lia.
+Qed.
